@@ -1,7 +1,8 @@
 #!/venv/bin/python
 """Rewrites the generated blocks of /verif/DESIGN.md (between <!-- BEGIN:x --> / <!-- END:x --> markers):
 STATUS  - per property: theorems (audited), partial theorems / visible full statements, tie sizes, wall time, known findings
-SEEDED  - which check caught which seeded change (from seeded/*/meta.json)"""
+SEEDED  - which check caught which seeded change (from seeded/*/meta.json)
+BENIGN  - what the checks said about the stored property-preserving changes (from benign/*/meta.json)"""
 import glob, importlib, json, os, re, subprocess, sys
 HERE = os.path.dirname(os.path.abspath(__file__)); sys.path.insert(0, HERE)
 V = os.path.dirname(HERE)
@@ -31,10 +32,26 @@ def seeded():
     return out.strip()
 
 
+def benign():
+    rows = ["| property-preserving change | written for | what it does | first run: checks not quiet | latest run: checks not quiet |", "|---|---|---|---|---|"]
+
+    def show(run):
+        if not run:
+            return "(not re-run)"
+        cs = run.get("checks") or {}
+        return ", ".join("%s: %s" % (p, {1: c.get("kind") or "VIOLATION", 2: "exit 2"}.get(c["exit"], c["exit"])) for p, c in sorted(cs.items())) or "all quiet"
+    for f in sorted(glob.glob(V + "/benign/*/meta.json")):
+        m = json.load(open(f))
+        d = os.path.dirname(f)
+        note = " ".join(open(d + "/notes.md").read().split())[:170] if os.path.exists(d + "/notes.md") else ""
+        rows.append("| %s | %s | %s | %s | %s |" % (m["name"], m["written_for"], note.replace("|", "/"), show(m.get("first_run")), show(m.get("latest_run"))))
+    return "\n".join(rows)
+
+
 def main():
     p = V + "/DESIGN.md"
     s = open(p).read()
-    for name, fn in (("STATUS", status), ("SEEDED", seeded)):
+    for name, fn in (("STATUS", status), ("SEEDED", seeded), ("BENIGN", benign)):
         a, b = "<!-- BEGIN:%s -->" % name, "<!-- END:%s -->" % name
         if a in s and b in s:
             s = s[:s.index(a) + len(a)] + "\n" + fn() + "\n" + s[s.index(b):]
